@@ -21,6 +21,7 @@ func init() {
 			"the hour stem follows the day stem that starts at 23:00 in both day conventions (the single hour pillar the library exposes)",
 		},
 		Gen: c05Gen, Run: c05Run,
+		BlockKind: "year", BlockQuick: [2]int{6, 6}, BlockThorough: [2]int{0, 25},
 		Exhaustive: func(tier string) bool { return false },
 		MinEvals:   map[string]int64{"quick": 2000000, "thorough": 50000000},
 		Chunks:     128,
@@ -247,8 +248,12 @@ func c05Run(w *W, c Case) {
 	tbl := base.GetJieQiTable()
 	yearLo := ref.Stamp{Y: y, M: 1, D: 1}.Secs()
 	yearHi := ref.Stamp{Y: y, M: 12, D: 31, H: 23, Mi: 59, S: 59}.Secs()
+	nAdd := 0
 	add := func(t int64, class string) {
 		if t >= yearLo && t <= yearHi {
+			if nAdd++; nAdd%9 == 0 {
+				distract(ref.FromSecs(t), nAdd/9)
+			}
 			c05Moment(w, ref.FromSecs(t), class)
 		}
 	}
